@@ -4,7 +4,7 @@ Model: coq/C18 (+ coq/Gen/C18Layers.v regenerated from the source on every run).
 Implementation: yowsup.stacks.YowStack / YowStackBuilder, yowsup.layers.YowLayer / YowParallelLayer,
 driven with recording layers at every position.
 """
-import itertools, json, os, signal, fcntl, time as _time
+import itertools, json, os, signal, time as _time
 from .. import modelrun
 from ..env import VERIF
 from ..translators import c18_layers
@@ -250,22 +250,6 @@ class _Hang(BaseException):
 
 def _alarm(signum, frame):
     raise _Hang()
-
-
-class _GenLock(object):
-    """coq/Gen/C18Layers.v and ocaml/build/C18 are shared by concurrent `./check C18` runs (possibly
-    against different trees): serialise regenerate -> prove -> build -> spawn."""
-
-    def __enter__(self):
-        d = os.path.join(VERIF, "coq", "Gen")
-        os.makedirs(d, exist_ok=True)
-        self.f = open(os.path.join(d, ".C18.lock"), "w")
-        fcntl.flock(self.f, fcntl.LOCK_EX)
-        return self
-
-    def __exit__(self, *a):
-        fcntl.flock(self.f, fcntl.LOCK_UN)
-        self.f.close()
 
 
 def loop_once(stack):
@@ -1021,8 +1005,8 @@ def check_builder(ctx, model, info):
 
 def run(ctx):
     t0 = _time.time()
-    with _GenLock():
-        info = c18_layers.regenerate()
+    with c18_layers.GenLock():
+        info = c18_layers.regenerate(have_lock=True)
         ctx.ties["translator:c18_layers"] = "ok" if info["ok"] else "broken: " + str(info["error"])
         ctx.prove()
         exe = ctx.build_model("C18")
@@ -1033,8 +1017,11 @@ def run(ctx):
         rev_default = bool(mi[1])
     n_eval = 0
     # ---- helpers (all 32 combinations, exhaustive) and builder
-    n_eval += check_helpers(ctx, model, info)
-    n_eval += check_builder(ctx, model, info)
+    # with a broken translator the generated function table is a stub: only the oracle runs on the
+    # helpers, and the broken tie is reported once (below)
+    hmodel = model if info["ok"] else None
+    n_eval += check_helpers(ctx, hmodel, info)
+    n_eval += check_builder(ctx, hmodel, info)
     # ---- stack shapes
     cases = gen_cases(ctx)
     mouts = model.call_many("run_scenario", [enc_scenario(c, rev_default) for c in cases]) if model else None
@@ -1103,10 +1090,10 @@ def run(ctx):
         model.close()
         ctx.ties["correspondence"] = "ok" if mism == 0 and not [v for v in ctx.violations
                                                                if v["name"].startswith("correspondence")] else "broken"
-    if not ctx.proof_ok and not ctx.violations:
-        ctx.tie_broken_without_input("theorem:" + ctx.failing_theorem(), ctx.ties.get("proof"))
     if not info["ok"] and not ctx.violations:
         ctx.tie_broken_without_input("translator:c18_layers", info["error"])
+    if not ctx.proof_ok and not ctx.violations:
+        ctx.tie_broken_without_input("theorem:" + ctx.failing_theorem(), ctx.ties.get("proof"))
     if model is None and not ctx.violations:
         ctx.tie_broken_without_input("model-build:C18", ctx.ties.get("model-build:C18"))
     ctx.coverage["evaluations"] = n_eval
